@@ -168,13 +168,24 @@ _FORBIDDEN_OPS = {opcode.opmap[n]: n for n in (
 
 
 def closure_code(fn):
+    """The compiled expression's code object, wherever the returned callable keeps it: a closure cell, a default
+    value, a keyword default, a partial's arguments or an attribute (found structurally, not by name)."""
     codes = []
+    cands = []
     for cell in getattr(fn, "__closure__", None) or ():
         try:
-            v = cell.cell_contents
+            cands.append(cell.cell_contents)
         except ValueError:
             continue
-        if isinstance(v, types.CodeType):
+    cands += list(getattr(fn, "__defaults__", None) or ())
+    cands += list((getattr(fn, "__kwdefaults__", None) or {}).values())
+    cands += list(getattr(fn, "args", None) or ()) + list((getattr(fn, "keywords", None) or {}).values())   # functools.partial
+    try:
+        cands += list(vars(fn).values())
+    except TypeError:
+        pass
+    for v in cands:
+        if isinstance(v, types.CodeType) and not any(v is c for c in codes):
             codes.append(v)
     return codes[0] if len(codes) == 1 else None
 
@@ -678,6 +689,13 @@ def run(run):
                 ex.examine(shape.format(f=f, g=g_), "history", {"variable_named_like_function": f})
             other = [w for w in wl if w not in (f, g_)][0]
             ex.examine(f"{other}({f})", "history", {"variable_named_like_function": f, "called": other})
+        # ---- declared variables named like identifiers an IMPLEMENTATION is likely to use itself (parameters / locals of
+        # the evaluation closure, dunder-free): a declared variable is a variable whatever it is called
+        for v_ in ("code", "env", "self", "kwargs", "args", "expr", "names", "fn", "tree", "node", "globals", "locals", "eval", "cls", "value"):
+            ex.names = frozenset({"x", v_})
+            ex.assignments = [{"x": 2, v_: 5}, {"x": -1.5, v_: 0.25}, {"x": 3, v_: "s"}]
+            for shape in ("{v} + 1", "x * {v}", "max({v}, x)", "{v} if x > 0 else x", "str({v})"):
+                ex.examine(shape.format(v=v_), "history", {"variable_named_like_implementation_identifier": v_})
         ex.assignments = saved_assignments
         ex.names = frozenset({"x", "y"})
         ex.ev = ex.safe_eval.ExpressionEvaluator()      # a default evaluator created AFTER that history
